@@ -7,8 +7,9 @@ FromW1(w) == [ver |-> w \div 8192, typ |-> (w \div 4096) % 2, shf |-> (w \div 20
 WordCase(which, w) == CASE which = 1 -> <<[Base EXCEPT !.ver = FromW1(w).ver, !.typ = FromW1(w).typ, !.shf = FromW1(w).shf, !.apid = FromW1(w).apid], 300>>
                         [] which = 2 -> <<[Base EXCEPT !.flags = w \div 16384, !.seq = w % 16384], 300>>
                         [] which = 3 -> <<Base, w + 1>>
-Vals == [ver |-> {-1, 0, 3, 7, 8}, typ |-> {-1, 0, 1, 2}, shf |-> {-1, 0, 1, 2}, apid |-> {-1, 0, 1024, 2047, 2048},
-         flags |-> {-1, 0, 3, 4}, seq |-> {-1, 0, 8192, 16383, 16384}]
+\* in-range boundaries, just outside, and far outside with low bits that look valid (65536 = 2^16, 65541 = 2^16 + 5)
+Vals == [ver |-> {-1, 0, 7, 8, 65536}, typ |-> {-1, 0, 1, 2}, shf |-> {-1, 0, 1, 65537}, apid |-> {-1, 0, 2047, 2048, 65541},
+         flags |-> {-1, 0, 3, 65536}, seq |-> {-1, 0, 16383, 16384, 65536}]
 Lens == {0, 1, 2, 255, 256, 257, 65535, 65536, 65537}
 MCInit == IF Mode = "words"
           THEN \E which \in 1 .. 3 : \E w \in 0 .. 65535 : InitWith(WordCase(which, w)[1], WordCase(which, w)[2])
